@@ -107,6 +107,8 @@ func zzMatches(l *SimpleLedger, m zzModel) bool {
 // ZZH_C12_rollback: history of B blocks with up to 2 symbolic operations each, then
 // RollbackState(t) for every t below the head: state equals the state recorded at t (also
 // after reopen), the root chain continues from root(t), re-executing block t+1 reproduces its root.
+// (also C01: after a rollback the running node reads what a node that never executed the dropped blocks reads)
+// zz:also C01
 func ZZH_C12_rollback() {
 	zz.HashForkOff()
 	store := zz.NewStore()
